@@ -598,6 +598,12 @@ func (s *alphSim) RoundTrip(req *http.Request) (*http.Response, error) {
 		if d := r.Header.Get("X-Verif-Delay-Ms"); d != "" {
 			ms, _ := strconv.Atoi(d)
 			r.Header.Del("X-Verif-Delay-Ms")
+			if p.caller == "reobserve" {
+				// hand-offs are attributed to the re-observation path by phase: the `reobs` step ends when
+				// the handler has no request left, so its requests are answered without simulated delay
+				// (a late answer would make its hand-off count as one of the polling path)
+				ms = 0
+			}
 			select {
 			case <-time.After(time.Duration(ms) * time.Millisecond):
 			case <-req.Context().Done():
